@@ -395,3 +395,52 @@ func VerifC16_IDForms(form, optNeg int) {
 	}
 	verifReach("done")
 }
+
+// The key store is the caller's: the handler must leave the slices its call-backs return untouched, and a second
+// request through the same handler and store gets the same answer as the first.
+func VerifC16_HandlerStore(kind, kekLen int) {
+	if verifSymbolic() {
+		verifJSONUnmarshalHook = c16UnmarshalHook
+		verifJSONMarshalHook = c16MarshalHook
+	}
+	d, _ := c16Draw(0, 0, 0)
+	other := lorawan.EUI64(verifNondet8("unknownDevEUI"))
+	verifAssume(other != d.devEUI)
+	jn := int(verifNondetU32("joinNonce") & 0xffffff)
+	dk := DeviceKeys{DevEUI: d.devEUI, NwkKey: lorawan.AES128Key(d.nwkKey), AppKey: lorawan.AES128Key(d.appKey), JoinNonce: jn}
+	nsKEK, asKEK := verifNondetBytes("nsKEK", kekLen), verifNondetBytes("asKEK", kekLen)
+	nsOrig, asOrig := verifCopy(nsKEK), verifCopy(asKEK)
+	req, r := c16MakeReq(kind, d, other, "A")
+	var sender string
+	switch q := req.(type) {
+	case backend.JoinReqPayload:
+		sender = q.SenderID
+	case backend.RejoinReqPayload:
+		sender = q.SenderID
+	}
+	h, err := NewHandler(HandlerConfig{
+		GetDeviceKeysByDevEUIFunc: func(devEUI lorawan.EUI64) (DeviceKeys, error) {
+			if devEUI == d.devEUI {
+				return dk, nil
+			}
+			return DeviceKeys{}, ErrDevEUINotFound
+		},
+		GetKEKByLabelFunc: func(label string) ([]byte, error) {
+			if label == "as-kek" {
+				return asKEK, nil // the store's own slice
+			}
+			if label == sender {
+				return nsKEK, nil
+			}
+			return nil, nil
+		},
+		GetASKEKLabelByDevEUIFunc: func(devEUI lorawan.EUI64) (string, error) { return "as-kek", nil },
+	})
+	verifAssert(err == nil, "NewHandler succeeds")
+	first := c16Serve(h, req)
+	c16CheckMirror(first, req, kind, r, "first answer")
+	verifAssert(verifBytesEq(nsKEK, nsOrig) && verifBytesEq(asKEK, asOrig), "the handler does not modify the key material its call-backs returned")
+	second := c16Serve(h, req)
+	c16AnsSame(second, first, "the same request through the same handler and key store gets the same answer")
+	verifReach("done")
+}
